@@ -49,6 +49,21 @@ Qed.
 Lemma py_index_nat {X} (l : list X) (n : nat) : py_index l (Z.of_nat n) = nth_error l n.
 Proof. unfold py_index. destruct (Z.ltb_spec (Z.of_nat n) 0); [lia|]. rewrite Nat2Z.id. reflexivity. Qed.
 
+Lemma nth_error_firstn_lt {X} (l : list X) (n i : nat) : (i < n)%nat -> nth_error (firstn n l) i = nth_error l i.
+Proof.
+  revert n i. induction l as [|x l IH]; intros n i Hi; [destruct n, i; reflexivity|].
+  destruct n as [|n]; [lia|]. destruct i as [|i]; [reflexivity|]. cbn [firstn nth_error]. apply IH. lia.
+Qed.
+
+Lemma skipn_some {X} (l : list X) (n : nat) (x : X) : nth_error l n = Some x -> skipn n l = x :: skipn (S n) l.
+Proof.
+  revert n. induction l as [|y l IH]; intros n H; [destruct n; discriminate|].
+  destruct n as [|n]; [inversion H; reflexivity|]. cbn [nth_error] in H. cbn [skipn]. rewrite (IH n H). reflexivity.
+Qed.
+
+Lemma skipn_none {X} (l : list X) (n : nat) : nth_error l n = None -> skipn n l = [].
+Proof. intros H. apply skipn_all2. apply nth_error_None, H. Qed.
+
 (* ================================================================== getLink *)
 Theorem get_link_ir_eq (links : dict) (name : text) :
   get_link_ir code_get_link links name = result_of_link (get_link links name).
@@ -67,6 +82,8 @@ Fixpoint assigned (s : stmt) : list var :=
   | SSeq a b => assigned a ++ assigned b
   | SAssign x _ => [x]
   | SUnpack xs _ => xs
+  | SUnpackStar b st a _ => b ++ [st] ++ a
+  | SCall t _ _ _ _ => match t with TVar x => [x] | TTuple xs => xs | TStar b st a => b ++ [st] ++ a end
   | SIf _ a b => assigned a ++ assigned b
   | SLoop b => assigned b
   | STry b hs o => assigned b ++ assigned_h hs ++ assigned o
@@ -194,7 +211,25 @@ Ltac norm_nat :=
   repeat match goal with
   | |- context [(?a + ?b + ?c)%nat] =>
     let n := eval compute in (b + c)%nat in replace (a + b + c)%nat with (a + n)%nat by lia
+  | |- context [S (?a + ?b)%nat] =>
+    let n := eval compute in (S b) in replace (S (a + b)%nat) with (a + n)%nat by lia
   end.
+
+(* k < length parts etc. as hypotheses of their own, for the side conditions of the list lemmas *)
+Ltac bound_facts :=
+  repeat match goal with
+  | H : nth_error ?l ?n = Some _ |- _ =>
+    lazymatch goal with
+    | _ : (n < length l)%nat |- _ => fail
+    | _ => assert (n < length l)%nat by (apply nth_error_Some; rewrite H; discriminate)
+    end
+  end.
+
+Ltac list_step :=
+  rewrite ?Nat.sub_0_r, ?Nat.add_0_r, ?firstn_all, ?firstn_firstn;
+  rewrite ?firstn_length_le by lia;
+  rewrite ?Nat.min_l by lia;
+  rewrite ?nth_error_firstn_lt by lia.
 
 Ltac nth_facts :=
   repeat match goal with
@@ -211,7 +246,7 @@ Ltac use_facts :=
   end.
 
 Ltac sym_step :=
-  cbn; znat; rewrite ?py_index_nat, ?py_slice_upto, ?py_slice_from; norm_nat; use_facts.
+  cbn; znat; rewrite ?py_index_nat, ?py_slice_upto, ?py_slice_from; norm_nat; list_step; norm_nat; use_facts.
 
 Ltac split_case :=
   match goal with
@@ -221,11 +256,16 @@ Ltac split_case :=
   | |- context [(?a <? ?b)%Z] => destruct (Z.ltb_spec a b)
   | |- context [(?a <=? ?b)%Z] => destruct (Z.leb_spec a b)
   | |- context [(?a =? ?b)%Z] => destruct (Z.eqb_spec a b)
+  | |- context [(?a <? ?b)%nat] => destruct (Nat.ltb_spec a b)
+  | |- context [(?a <=? ?b)%nat] => destruct (Nat.leb_spec a b)
+  | |- context [match skipn ?n ?l with _ => _ end] =>
+    let H := fresh "Hsk" in
+    destruct (nth_error l n) eqn:H; [rewrite !(skipn_some _ _ _ H)|rewrite !(skipn_none _ _ H)]
   | |- context [is_empty ?t] => destruct (is_empty t) eqn:?
   end.
 
 Ltac crush :=
-  repeat sym_step;
+  bound_facts; repeat sym_step;
   repeat (first [reflexivity | solve [exfalso; nth_facts; lia] | (split_case; repeat sym_step)]).
 
 Theorem parse_line_ir_eq (int_of : text -> option Z) (line : text) :
